@@ -50,6 +50,7 @@ int save_context (error_context_t * econ) {
   econ->save_command_giver = command_giver;
   econ->save_sp = sp;           /* stack pointer */
   econ->save_csp = csp;         /* control stack pointer */
+  econ->save_num_varargs = num_varargs;
   econ->save_context = current_error_context;
 
   current_error_context = econ;
@@ -102,6 +103,7 @@ void pop_context (error_context_t * econ) {
 void restore_context (error_context_t * econ) {
 
   command_giver = econ->save_command_giver;
+  num_varargs = econ->save_num_varargs; /* expansions made by the aborted evaluation are gone with its stack */
   DEBUG_CHECK (csp < econ->save_csp, "csp is below econ->csp before unwinding.\n");
   if (csp > econ->save_csp)
     {
